@@ -49,7 +49,7 @@ from ..lib_C14 import (BASIN_TYPES, CORE, DCORBASE, FB, FDICT, H5BASE,
                        enclosing_conditions, fact_guard, files_mentioning,
                        fold, fold_basin_classes, method, self_attr_writes,
                        run_straight, single_assign, stmt_of, basin_loop,
-                       expand_partials, inline_module_helpers,
+                       expand_partials, inline_module_helpers, interpret,
                        module_functions)
 
 ASSUMPTIONS = [
@@ -1307,54 +1307,60 @@ def r143(ctx, repo, sites):
                f"({len(bad)} of {len(ID_PAIRS)} pairs differ)",
                node=verdicts[0], label=f"identifier law [{mapping}]")
     ctx.stat("R14.3 verifier evaluations", n_eval)
-    # verdict returned
-    carriers = {n.targets[0].id for n in walk(vb) if isinstance(n, ast.Assign)
-                and len(n.targets) == 1 and isinstance(n.targets[0], ast.Name)
-                and is_self_attr(n.value, "_measurement_identifier_verified")}
+    # what verify_basin returns, decided by interpreting the function for
+    # every identifier pair in the state in which the check is due
+    def returned(mapping, ref, bas, **state):
+        env = dict(DUE)
+        env.update({"self.mapping": mapping, REF: ref})
+        env.update({k: bas for k in BAS})
+        env.update(state)
+        try:
+            kind, val = interpret(vb, env)
+        except Raises:
+            return None
+        except Unknown as u:
+            raise AnalysisError(f"verify_basin: cannot interpret `{u}`")
+        if kind != "return":
+            return False
+        return val is NotImplemented or bool(val)
+    bad = []
+    for mapping, law in (("same", lambda r, b: b is not None and r == b),
+                         ("basinmap1", lambda r, b: b is not None
+                          and r.startswith(b))):
+        for ref, bas, what in ID_PAIRS:
+            got = returned(mapping, ref, bas)
+            if got is not None and got != bool(law(ref, bas)):
+                bad.append((mapping, ref, bas, got))
     rets = [n for n in walk(vb) if isinstance(n, ast.Return)]
-
-    def conj(e):
-        if isinstance(e, ast.BoolOp) and isinstance(e.op, ast.And):
-            out = []
-            for v in e.values:
-                out += conj(v)
-            return out
-        return [e]
-    ok = bool(rets) and all(
-        any((isinstance(x, ast.Name) and x.id in carriers) or is_self_attr(
-            x, "_measurement_identifier_verified") for x in conj(r.value))
-        for r in rets)
-    ctx.ob("R14.3", ok,
-           "verify_basin returns the identifier verdict (in conjunction with "
-           "availability)" if ok else
-           "verify_basin can return without the identifier verdict",
+    ctx.ob("R14.3", not bad,
+           "verify_basin returns the identifier verdict of every identifier "
+           "pair (basin available, check requested)" if not bad else
+           f"verify_basin returns {bad[0][3]} for referrer {bad[0][1]!r} / "
+           f"basin {bad[0][2]!r} (mapping {bad[0][0]!r}) although the "
+           f"identifier law says {not bad[0][3]}: the verdict is not what is "
+           f"returned ({len(bad)} of {2 * len(ID_PAIRS)} cases)",
            node=rets[0] if rets else vb, label="verdict returned")
-    # run_identifier branch covers the verdict when requested
-    for nm in carriers:
-        asg = [n for n in walk(vb) if isinstance(n, ast.Assign) and is_name(
-            n.targets[0], nm)]
-        free = [n for n in asg if isinstance(n.value, ast.Constant)
-                and n.value.value is True]
-        # the waiver must be unreachable when the check is requested and
-        # everything else (availability, ...) holds
-        bad = []
-        for n in free:
-            conds = enclosing_conditions(n, vb)
-            env = {x: True for t, _ in conds for x in names_in(t)}
-            try:
-                runs = all(bool(Mini(env).ev(t)) == pol for t, pol in conds)
-            except Unknown as u:
-                raise AnalysisError(
-                    f"verify_basin: cannot decide when `{short(n, 40)}` "
-                    f"runs (`{u}`)")
-            if runs:
-                bad.append(n)
-        ctx.ob("R14.3", not bad,
-               "the verdict is waived only when run_identifier is off or the "
-               "basin is unavailable" if not bad else
-               "the identifier verdict is replaced by True although the check "
-               "was requested", node=(bad or asg)[0],
-               label="verdict waived only on request")
+    # the check is waived only on request, and availability is part of the
+    # answer
+    ref, bas = "2024-M7-ab12", "zz9"
+    prm = [a.arg for a in vb.args.args[1:]]
+    if "run_identifier" not in prm:
+        raise AnalysisError("verify_basin: run_identifier parameter lost")
+    probs = []
+    for mapping in ("same", "basinmap1"):
+        if returned(mapping, ref, bas) is not False:
+            probs.append("an unrelated basin passes although the check was "
+                         "requested")
+        if returned(mapping, ref, ref, **{"self.is_available()": False,
+                                          **{n_: False for n_ in DUE
+                                             if n_.startswith("check_")}}) \
+                is not False:
+            probs.append("an unavailable basin passes")
+    ctx.ob("R14.3", not probs,
+           "the identifier verdict is waived only when run_identifier is "
+           "off; an unavailable basin never passes" if not probs else
+           f"verify_basin: {probs[0]}", node=rets[0] if rets else vb,
+           label="verdict waived only on request")
     # the verified flag is only set by the comparison, or waived when the
     # referrer has no identifier
     for rel, node, kind, value in self_attr_writes(
